@@ -340,3 +340,24 @@ package arvados
 // (sound for seek/Read/openFile, which do not mutate segments); Write grows and
 // splits memSegments in place, so its proof needs a heap-dependent length
 // function and prefix-sum lemmas over spliced slices (see /verif/DESIGN.md 10.8).
+
+// parseHexTimestamp: the expiry is the hexadecimal value of the field, in
+// seconds since the epoch; an unparsable field is an error.
+//@ func parseHexTimestamp property C07
+//@   calls strconv.ParseInt#1: requires $0 == timestampHex && $1 == 16 && ($2 == 0 || $2 == 64)
+//@   ensures err == nil ==> parseok(timestampHex, 16) && ts == time.Unix(parseint(timestampHex, 16), 0)
+//@   ensures !parseok(timestampHex, 16) ==> err != nil
+
+// memSegment.Slice / ReadAt: a copy of the requested sub-range; reads never
+// run past the segment.
+//@ func memSegment.Slice property C08 safety -makeslice
+//@   requires 0 <= off && off <= len(me.buf) && (length < 0 || off + length <= len(me.buf))
+//@   ensures istype(result, *memSegment) && len(unbox(result, *memSegment).buf) == ite(length < 0, len(me.buf) - off, length)
+//@   ensures forall k int :: 0 <= k && k < len(unbox(result, *memSegment).buf) ==> unbox(result, *memSegment).buf[k] == me.buf[off + k]
+//@ func memSegment.ReadAt property C08,C03
+//@   requires off >= 0
+//@   modifies elems(p)
+//@   ensures off > len(me.buf) ==> n == 0 && err == io.EOF
+//@   ensures off <= len(me.buf) ==> n == min(len(p), len(me.buf) - off) && (forall k int :: 0 <= k && k < n ==> p[k] == old(me.buf[off + k]))
+//@   ensures off <= len(me.buf) ==> (err == nil) == (n == len(p))
+//@   ensures err == nil || err == io.EOF
